@@ -49,7 +49,7 @@ structure VD (α : Type) where
   d : α
   deriving Repr
 
-/-- `regDownstreamBlocking` (utils.h:417-434):
+/-- `regDownstreamBlocking` (utils.h:416-433):
     `IF(ready(in)) dsSig = downstream(in); dsSig = reg(dsSig); downstream(ret) = dsSig; upstream(in) = upstream(ret);`
     valid has reset value '0' (line 421), the payload register has none (`d0` = unobservable power-on content). -/
 def regDownstreamBlocking {α} (d0 : α) : Stage α α where
@@ -60,7 +60,7 @@ def regDownstreamBlocking {α} (d0 : α) : Stage α α where
   bwd _ _ r := r
   next s _ x r := if r then ⟨x.valid, x.data⟩ else s
 
-/-- `regDownstream` (utils.h:470-500), branch `has<Ready>()`:
+/-- `regDownstream` (utils.h:476-508), branch `has<Ready>()`:
     `IF(ready(in)) { valid_reg = valid(in); dsSig = downstream(in); }` … `ready(in) = ready(ret) | !valid_reg`. -/
 def regDownstream {α} (d0 : α) : Stage α α where
   σ := VD α
@@ -70,7 +70,7 @@ def regDownstream {α} (d0 : α) : Stage α α where
   bwd s _ r := r || !s.v
   next s _ x r := if r || !s.v then ⟨x.valid, x.data⟩ else s
 
-/-- `regReady` — the skid buffer (utils.h:436-468).
+/-- `regReady` — the skid buffer (utils.h:435-474).
     ```
     ready(in) = !valid_reg;
     IF(ready(ret)) valid_reg = '0';
@@ -92,7 +92,7 @@ def regReady {α} (d0 : α) : Stage α α where
     let d2 := if !v1 then x.data else s.d
     ⟨v2, d2⟩
 
-/-- `stall` (utils.h:721-733): `out <<= source; IF(stallCondition) { valid(out) = '0'; ready(source) = '0'; }` -/
+/-- `stall` (utils.h:679-692): `out <<= source; IF(stallCondition) { valid(out) = '0'; ready(source) = '0'; }` -/
 def stall {α} : Stage α α where
   σ := Unit
   nctl := 1
@@ -101,7 +101,7 @@ def stall {α} : Stage α α where
   bwd _ c r := r && !c 0
   next _ _ _ _ := ()
 
-/-- a plain connection (`delay` with `cycles = 0`, utils.h:504-514) -/
+/-- a plain connection (`delay` with `cycles = 0`, utils.h:515-516) -/
 def wire {α} : Stage α α where
   σ := Unit
   nctl := 0
@@ -119,7 +119,7 @@ def comp {α β γ} (A : Stage α β) (B : Stage β γ) : Stage α γ where
   bwd s c r := A.bwd s.1 c (B.bwd s.2 (c.shift A.nctl) r)
   next s c x r := (A.next s.1 c x (B.bwd s.2 (c.shift A.nctl) r), B.next s.2 (c.shift A.nctl) (A.fwd s.1 c x) r)
 
-/-- `regDecouple` (utils.h:775-780): `regReady(regDownstreamBlocking(stream))` -/
+/-- `regDecouple` (utils.h:747-752): `regReady(regDownstreamBlocking(stream))` -/
 def regDecouple {α} (d0 : α) : Stage α α := comp (regDownstreamBlocking d0) (regReady d0)
 
 /-- `n` × `regDownstreamBlocking` -/
@@ -127,23 +127,25 @@ def blockingChain {α} (d0 : α) : Nat → Stage α α
   | 0 => wire
   | n+1 => comp (regDownstreamBlocking d0) (blockingChain d0 n)
 
-/-- `delay` (utils.h:503-514): `cycles-1` × `regDownstreamBlocking`, then one `regDownstream`; nothing for `cycles = 0`. -/
+/-- `delay` (utils.h:511-520): `cycles-1` × `regDownstreamBlocking`, then one `regDownstream`; nothing for `cycles = 0`
+    (since /repo 553e604 written recursively with a fresh stream object per stage; before that a loop re-assigning one
+    stream variable, which rebound `reduceWidth`'s earlier read of `valid(out)` — finding F5). -/
 def delay {α} (d0 : α) : Nat → Stage α α
   | 0 => wire
   | n+1 => comp (blockingChain d0 n) (regDownstream d0)
 
-/-! ### stream FIFO (streamFifo.h:119-152 on top of Fifo.h)
+/-! ### stream FIFO (streamFifo.h:117-151 on top of Fifo.h)
 
 The storage (put/get pointers + memory) is abstracted to the list `q` of stored beats — that this abstraction is right is
 property C15.  What this model keeps from `Fifo.h` is everything that decides the *handshake timing*:
-`generatePush` (Fifo.h:372-391): `put += pushValid; full = reg(put - pushGet == depth)`,
-`generatePop`  (Fifo.h:394-410): `get += popValid; peek = reg(mem[get]); empty = reg(popPut == get)`,
-`generate`     (Fifo.h:330-347): `pushGet = popGet delayed by latency-1 registers`, `popPut = pushPut delayed by latency-1`.
+`generatePush` (Fifo.h:356-383): `put += pushValid; full = reg(put - pushGet == depth)`,
+`generatePop`  (Fifo.h:385-410): `get += popValid; peek = reg(mem[get]); empty = reg(popPut == get)`,
+`generate`     (Fifo.h:317-330): `pushGet = popGet delayed by latency-1 registers`, `popPut = pushPut delayed by latency-1`.
 `pushP`/`popP` are those delay lines, holding the push/pop bits of the last `lat-1` cycles; the number of stored beats the
 pop side does not see yet is the number of `true` in `pushP`, the number of free slots the push side does not see yet the
 number of `true` in `popP`.
-`strm::fifo` (streamFifo.h:119-140): `ready(in) = !full; IF(transfer(in)) push`, `valid(ret) = !empty; IF(transfer(ret)) pop`
-(`push`/`pop` are again gated by `!full`/`!empty`, Fifo.h:150,166) and for `fifoLatency == 0` the bypass
+`strm::fifo` (streamFifo.h:117-140): `ready(in) = !full; IF(transfer(in)) push`, `valid(ret) = !empty; IF(transfer(ret)) pop`
+(`push`/`pop` are again gated by `!full`/`!empty`, Fifo.h:155,173) and for `fifoLatency == 0` the bypass
 `IF(!valid(ret)) { downstream(ret) = downstream(in); IF(ready(ret)) valid(in) = '0'; }` around a latency-1 FIFO. -/
 
 structure FifoS (α : Type) where
@@ -173,17 +175,17 @@ def fifo {α} (d0 : α) (depth lat : Nat) (ft : Bool) : Stage α α where
     let popP := (pop :: s.popP).take (lat - 1)
     ⟨q2, pushP, popP, q2.length + countT popP == depth, q2.length == countT pushP⟩
 
-/-! ### width changers (utils.h:531-613) -/
+/-! ### width changers (utils.h:522-611) -/
 
 structure ExtS (δ : Type) where
   cnt : Nat
   slots : List δ
   deriving Repr
 
-/-- `extendWidth` (utils.h:531-569) with `reset = '0'`.
+/-- `extendWidth` (utils.h:536-571) with `reset = '0'`.
     `Counter counter{ratio}; IF(transfer(source)) counter.inc();`
     `valid(ret) = counter.isLast() & valid(source); ready(source) = ready(ret) | !counter.isLast();`
-    `*ret = makeShiftReg(width, *source, transfer(source))` — `makeShiftReg` (utils.h:516-529) returns the *combinational*
+    `*ret = makeShiftReg(width, *source, transfer(source))` — `makeShiftReg` (utils.h:522-534) returns the *combinational*
     `newValue = (value >> w) with the new word in the upper w bits`, and registers it when `en`.
     The `ratio·w`-bit shift register is modelled as `ratio` slots of one input word (`dataOf`), oldest first;
     `mk slots x` builds the output beat from the slots and the meta signals of the current input beat `x`
@@ -199,7 +201,7 @@ structure ExtS (δ : Type) where
     let t := x.valid && (r || !last)
     if t then ⟨if last then 0 else s.cnt + 1, s.slots.drop 1 ++ [dataOf x.data]⟩ else s
 
-/-- `reduceWidth` (utils.h:571-613) with `reset = '0'`.
+/-- `reduceWidth` (utils.h:573-611) with `reset = '0'`.
     `Counter counter{ratio}; IF(transfer(out)) counter.inc(); IF(!valid(source) | reset) counter.reset();`
     `out <<= source; ready(source) &= counter.isLast(); *out = source->part(ratio, counter.value());`
     `eop(out) &= counter.isLast(); sop(out) &= counter.isFirst();`  — all folded into `slice cnt x`.
